@@ -1,6 +1,6 @@
 (* C03 — the protoc plugin's output implements the schema.
    Property-level statements only; every proof is a single [exact] of a lemma from Proofs/PluginP.v,
-   Proofs/PluginWitP.v or Proofs/C03Bridge{A,B,C,D,E,Wit}.v, followed by Print Assumptions.
+   Proofs/PluginWitP.v, Proofs/C03Bridge{A,B,C,D,E,Wit}.v or Proofs/C03Chain{A,B,C,Wit}.v, followed by Print Assumptions.
 
    Reading guide
      descriptor          Spec/Descriptor.v   FileDescriptorSet as protoc emits it (any number of files, messages, nesting depth)
@@ -30,6 +30,11 @@
 From BP Require Import Model.Types Model.Object Model.Eq Model.Encode Model.Decode Model.WellFormed Model.C01Def.
 From BP Require Import Base.Prelude Spec.Descriptor gen.C03Tables Model.Plugin Proofs.PluginP Proofs.PluginWitP.
 From BP Require Import Model.C03Bridge Proofs.C03BridgeA Proofs.C03BridgeC Proofs.C03BridgeD Proofs.C03BridgeE Proofs.C03BridgeWit.
+(* the chain section (last section of this file): definitions of the runtime properties are used under qualified names *)
+From BP Require Import Model.C03Chain Proofs.C03ChainB Proofs.C03ChainC Proofs.C03ChainWit.
+From BP Require Model.Json Spec.Wire Proofs.C02Abs Proofs.C04Def Proofs.C08EvoDef Model.C08Step Model.C17Typed Model.C10Stream Model.C10Rt.
+From BP Require Model.History Model.C14Ops Model.C14Pickle Proofs.C14Thm Proofs.C05MsgDef Proofs.C05AccDef Proofs.C05Model Spec.C06Wire Model.C06Obs.
+From BP Require Model.C07Ops Model.C07Wire Proofs.C07InvP Proofs.C07ValP.
 From Coq Require Import String.
 Open Scope list_scope.
 Open Scope Z_scope.
@@ -320,3 +325,371 @@ Example C03_ex_bridge_refs :
   /\ pyty_of (class_rows T_ok) (PyRef (b "p.q") (b "OuterInner")) = Some (PyMsg 12)
   /\ pyty_of (class_rows T_ok) (PyRef (b "p.q") (b "OuterInnerKind")) = Some (PyEnum 1).
 Proof. vm_compute. repeat split; try reflexivity. right. right. right. right. right. right. right. right. right. right. right. left. reflexivity. Qed.
+
+(* =====================================================================================================================
+   THE CHAIN: every runtime headline theorem, for everything the plugin emits.
+   Shape of each statement: for every descriptor set D protoc can emit (protoc_wf), every naming with names_ok, and
+   bridge_ok D, there is the class table t Python builds from the plugin's output (reflect (compile D) = Ok t, hence
+   unique) such that for the runtime schema sc = schema_of_table t the CONCLUSION of the runtime theorem holds of every
+   value / byte string / set of deleted fields meeting that theorem's VALUE-level hypotheses (all decidable, Properties/C0x.v).
+   The SCHEMA-level hypotheses are discharged once and for all by C03_generated_side_conditions:
+     c01_schema_ok, wf_schema       the bridge (C03_generated_schema_ok)
+     builtins_std (C02), std_builtins_b (C06), has_builtins (C17)
+                                    the schema is `builtin_classes ++ ...` / builtins_exact
+     entries_agree (C17)            = entries_ok, a conjunct of c01_schema_ok
+     masks_ok (C08, C10)            EQUALS gen_masks_ok t masks (Model/C03Chain.v): the masks of the bundled classes and of the
+                                    synthetic map-Entry classes delete nothing - i.e. ANY subset of the fields of ANY generated
+                                    message class; user_masks um (one mask per generated message class) always qualifies
+     keys_ok cs (C04, C05)          NOT derivable from names_ok: it EQUALS gen_keys_ok cs field_name D (Model/C03Chain.v: the
+                                    keys_ok test on the pythonised field names of every message of a generated package), which
+                                    stays as the one residual decidable premise of the JSON corollaries (C03_keys_residual_refuted:
+                                    fields a_1 / a1 are distinct Python names with one camelCase key)
+     js_matches (C05)               stays as a hypothesis on the schema: the class table holds the pythonised names only, js_matches
+                                    speaks about the PROTO names (json_name_safe, K3) and the enum value names.
+   C09 (len / dump) and the invariant theorems of C07 have no schema hypothesis at all and apply to the generated schema
+   verbatim; of C07 the headline with a schema hypothesis (wf_schema) is restated (C03_generated_oneof).
+   ===================================================================================================================== *)
+Theorem C03_generated_side_conditions :
+  forall (field_name class_name : str -> str) (enum_member_name : str -> str -> str) (D : descriptor),
+    protoc_wf D = true -> names_ok field_name class_name enum_member_name D = true -> bridge_ok D = true ->
+    exists t, class_table_of field_name class_name enum_member_name D = Some t
+      /\ reflect (compile field_name class_name enum_member_name D) = Ok t
+      /\ table_ok t = true
+      /\ let sc := schema_of_table t in
+         c01_schema_ok sc = true /\ wf_schema sc = true
+         /\ C02Abs.builtins_std sc = true
+         /\ C17Typed.has_builtins sc /\ C17Typed.entries_agree sc = true
+         /\ C06Wire.std_builtins_b sc = true
+         /\ (forall cs, C04Def.keys_ok cs sc = gen_keys_ok cs field_name D)
+         /\ (forall masks, C08EvoDef.masks_ok sc masks = gen_masks_ok t masks)
+         /\ (forall um, (List.length um <= n_msgs t)%nat -> C08EvoDef.masks_ok sc (user_masks um) = true).
+Proof. exact generated_side_conditions. Qed.
+Print Assumptions C03_generated_side_conditions.
+
+(* C02 for generated classes: what a generated class writes is a legal proto3 serialisation inside [supported] that denotes
+   the decoded form of the message (the message itself under enc_faithful), and every legal byte string inside [supported]
+   is decoded by the generated class to exactly its denotation (C02_encode_legal, C02_encode_denotes, C02_decode_refines) *)
+Theorem C03_generated_interop :
+  forall (field_name class_name : str -> str) (enum_member_name : str -> str -> str) (D : descriptor),
+    protoc_wf D = true -> names_ok field_name class_name enum_member_name D = true -> bridge_ok D = true ->
+    exists t, reflect (compile field_name class_name enum_member_name D) = Ok t /\
+      let sc := schema_of_table t in
+      (forall m, c01_value_ok sc m = true ->
+         exists bs, enc_obj sc m = Ok bs /\
+           (Zlength bs < 2 ^ 35 ->
+            exists rs a, Wire.parse_wire bs = Some rs /\ Wire.sem (S (List.length bs)) sc (ocls m) rs = Some a /\
+              a = C02Abs.abs_obj sc (norm_obj sc m) /\ C02Abs.supported (S (List.length bs)) sc (ocls m) rs = true)) /\
+      (forall m, c01_value_ok sc m = true -> C02Abs.enc_faithful sc m = true ->
+         exists bs, enc_obj sc m = Ok bs /\
+           (Zlength bs < 2 ^ 35 ->
+            exists rs, Wire.parse_wire bs = Some rs /\ Wire.sem (S (List.length bs)) sc (ocls m) rs = Some (C02Abs.abs_obj sc m) /\
+              C02Abs.supported (S (List.length bs)) sc (ocls m) rs = true)) /\
+      (forall c bs rs a, Wire.parse_wire bs = Some rs -> Wire.sem (S (List.length bs)) sc c rs = Some a ->
+         C02Abs.supported (S (List.length bs)) sc c rs = true ->
+         exists m', parse sc c bs = Ok m' /\ C02Abs.abs_obj sc m' = a).
+Proof. exact generated_interop. Qed.
+Print Assumptions C03_generated_interop.
+
+(* C04 for generated classes: keys_ok of the generated schema IS gen_keys_ok on the descriptor; under it, for casing cs, every
+   [good] value of a generated class survives to_dict / from_dict (both forms) and to_json / from_json (C04_dict_rt, C04_text_rt);
+   to_dict is json.dumps-serialisable without it (C04_dumps_total) *)
+Theorem C03_generated_json :
+  forall (field_name class_name : str -> str) (enum_member_name : str -> str -> str) (D : descriptor),
+    protoc_wf D = true -> names_ok field_name class_name enum_member_name D = true -> bridge_ok D = true ->
+    exists t, reflect (compile field_name class_name enum_member_name D) = Ok t /\
+      let sc := schema_of_table t in
+      (forall cs, C04Def.keys_ok cs sc = gen_keys_ok cs field_name D) /\
+      (forall cs m, gen_keys_ok cs field_name D = true -> C04Def.good sc m = true ->
+         (exists m', Json.from_dict_cls sc (ocls m) (Json.to_dict cs false sc m) = Ok m' /\
+                     Json.from_dict_inst sc (new sc (ocls m)) (Json.to_dict cs false sc m) = Ok m' /\
+                     obj_eq sc m' m = true /\ enc_obj sc m' = enc_obj sc m) /\
+         (exists m', Json.json_rt_cls cs false sc m = Ok m' /\
+                     Json.json_rt_inst cs false sc m (new sc (ocls m)) = Ok m' /\
+                     obj_eq sc m' m = true /\ enc_obj sc m' = enc_obj sc m)) /\
+      (forall cs m, in_range sc m = true -> C04Def.oneof_ok sc m = true -> Json.dumpsable (Json.to_dict cs false sc m) = true).
+Proof. exact generated_json. Qed.
+Print Assumptions C03_generated_json.
+
+(* the premise gen_keys_ok is a genuine one: names_ok (fields_nodup: distinct Python names) does not give distinct camelCase keys *)
+Theorem C03_keys_residual_refuted :
+  protoc_wf D_keys = true /\ names_ok w_field_name w_class_name w_member_name D_keys = true /\ bridge_ok D_keys = true
+  /\ gen_keys_ok Json.CAMEL w_field_name D_keys = false /\ gen_keys_ok Json.SNAKE w_field_name D_keys = true.
+Proof. exact chain_keys_residual. Qed.
+Print Assumptions C03_keys_residual_refuted.
+
+(* C17 for generated classes: whatever a generated class parses - from ANY byte string - is well typed, inside the decoder's
+   ranges, of the requested class, and can be encoded again (C17_welltyped; the totality / rejection theorems of C17 have no
+   schema hypothesis) *)
+Theorem C03_generated_welltyped_decode :
+  forall (field_name class_name : str -> str) (enum_member_name : str -> str -> str) (D : descriptor),
+    protoc_wf D = true -> names_ok field_name class_name enum_member_name D = true -> bridge_ok D = true ->
+    exists t, reflect (compile field_name class_name enum_member_name D) = Ok t /\
+      let sc := schema_of_table t in
+      forall c bs m, parse sc c bs = Ok m ->
+        C17Typed.well_typed sc m = true /\ C17Typed.decoded_range sc m = true /\ ocls m = c /\
+        exists bs', enc_obj sc m = Ok bs'.
+Proof. exact generated_welltyped_decode. Qed.
+Print Assumptions C03_generated_welltyped_decode.
+
+(* C08 for generated classes: ANY subset of the fields of ANY generated message class deleted (gen_masks_ok; every family
+   user_masks um of one mask per message class qualifies): the older classes read and re-write bytes(m) and the generated
+   classes read the result back to the decoded form of m (C08_evolution) *)
+Theorem C03_generated_evolution :
+  forall (field_name class_name : str -> str) (enum_member_name : str -> str -> str) (D : descriptor),
+    protoc_wf D = true -> names_ok field_name class_name enum_member_name D = true -> bridge_ok D = true ->
+    exists t, reflect (compile field_name class_name enum_member_name D) = Ok t /\
+      let sn := schema_of_table t in
+      (forall um, (List.length um <= n_msgs t)%nat -> gen_masks_ok t (user_masks um) = true) /\
+      forall masks m, gen_masks_ok t masks = true -> c01_value_ok sn m = true ->
+        exists b1, enc_obj sn m = Ok b1 /\
+          (Zlength b1 < 2 ^ 64 ->
+           exists mo b2 m2,
+             parse (C08Step.drop_fields masks sn) (ocls m) b1 = Ok mo /\
+             enc_obj (C08Step.drop_fields masks sn) mo = Ok b2 /\ List.length b2 = List.length b1 /\
+             parse sn (ocls m) b2 = Ok m2 /\ m2 = norm_obj sn m /\
+             (deep nan_free (PMsg m) = true -> obj_eq sn m2 m = true /\ obj_eq sn m m2 = true) /\
+             (forall g, which_one_of m2 g = which_one_of m g) /\
+             enc_obj sn m2 = Ok b1).
+Proof. exact generated_evolution. Qed.
+Print Assumptions C03_generated_evolution.
+
+(* C10 for generated classes: the delimited stream round trip, the stream cut anywhere, and the reader older than the writer
+   (C10_stream_roundtrip, C10_truncate_roundtrip, C10_stream_older_reader) *)
+Theorem C03_generated_streams :
+  forall (field_name class_name : str -> str) (enum_member_name : str -> str -> str) (D : descriptor),
+    protoc_wf D = true -> names_ok field_name class_name enum_member_name D = true -> bridge_ok D = true ->
+    exists t, reflect (compile field_name class_name enum_member_name D) = Ok t /\
+      let sc := schema_of_table t in
+      (forall ms rest,
+         Forall (fun m => c01_value_ok sc m = true /\ deep nan_free (PMsg m) = true) ms ->
+         Forall (fun m => C10Rt.msg_small sc m = true) ms ->
+         exists stream,
+           C10Stream.dump_stream sc ms = Ok stream /\
+           C10Stream.loads sc (map ocls ms) (stream ++ rest) = (map (norm_obj sc) ms, Ok rest) /\
+           Forall (fun m => obj_eq sc m (norm_obj sc m) = true /\ obj_eq sc (norm_obj sc m) m = true /\
+                            enc_obj sc (norm_obj sc m) = enc_obj sc m /\
+                            (forall g, which_one_of (norm_obj sc m) g = which_one_of m g)) ms /\
+           C10Stream.dump_stream sc (map (norm_obj sc) ms) = Ok stream) /\
+      (forall ms stream k,
+         Forall (fun m => c01_value_ok sc m = true /\ deep nan_free (PMsg m) = true) ms ->
+         Forall (fun m => C10Rt.msg_small sc m = true) ms ->
+         C10Stream.dump_stream sc ms = Ok stream ->
+         exists r,
+           C10Stream.loads sc (map ocls ms) (firstn k stream)
+             = (map (norm_obj sc) (firstn (C10Rt.whole_frames sc ms k) ms), r) /\
+           (if (k <? List.length stream)%nat
+            then (exists e, r = Err e /\ e <> EFuel) /\ (C10Rt.whole_frames sc ms k < List.length ms)%nat
+            else r = Ok [] /\ C10Rt.whole_frames sc ms k = List.length ms) /\
+           Forall (fun m => obj_eq sc m (norm_obj sc m) = true /\ obj_eq sc (norm_obj sc m) m = true /\
+                            enc_obj sc (norm_obj sc m) = enc_obj sc m /\
+                            (forall g, which_one_of (norm_obj sc m) g = which_one_of m g))
+                  (firstn (C10Rt.whole_frames sc ms k) ms)) /\
+      (forall masks ms rest, gen_masks_ok t masks = true ->
+         Forall (fun m => c01_value_ok sc m = true) ms -> Forall (fun m => C10Rt.msg_small sc m = true) ms ->
+         exists stream mos stream2,
+           C10Stream.dump_stream sc ms = Ok stream /\
+           Forall2 (C10Rt.older_view sc masks) ms mos /\
+           C10Stream.loads (C08Step.drop_fields masks sc) (map ocls ms) (stream ++ rest) = (mos, Ok rest) /\
+           C10Stream.dump_stream (C08Step.drop_fields masks sc) mos = Ok stream2 /\ List.length stream2 = List.length stream /\
+           (forall rest', C10Stream.loads sc (map ocls ms) (stream2 ++ rest') = (map (norm_obj sc) ms, Ok rest')) /\
+           Forall (fun m => C10Rt.same_message sc m (norm_obj sc m)) ms).
+Proof. exact generated_streams. Qed.
+Print Assumptions C03_generated_streams.
+
+(* C14 for generated classes: pickle (C14_pickle; pickle_pre reduces to its value-level conjuncts), copy and deepcopy
+   (C14_copy_faithful, C14_deepcopy_faithful_partial: indistinguishable = same bytes, == against every value in both operand
+   positions, same bool, presence at every path, unknown bytes, class).  Independence of the copies is aliasing: harness only,
+   as in C14 *)
+Theorem C03_generated_pickle :
+  forall (field_name class_name : str -> str) (enum_member_name : str -> str -> str) (D : descriptor),
+    protoc_wf D = true -> names_ok field_name class_name enum_member_name D = true -> bridge_ok D = true ->
+    exists t, reflect (compile field_name class_name enum_member_name D) = Ok t /\
+      let sc := schema_of_table t in
+      (forall o, C14Pickle.pickle_pre sc o
+                 = c01_value_ok sc (C08Step.clear_unk o) && C14Pickle.unk_records_ok sc o && C14Pickle.enc_small sc o) /\
+      (forall o o2,
+         c01_value_ok sc (C08Step.clear_unk o) = true -> C14Pickle.unk_records_ok sc o = true ->
+         C14Pickle.enc_small sc o = true -> C14Ops.mat_obj sc o o2 = true ->
+         exists o', History.pickle_rt sc o2 = Ok o' /\
+           enc_obj sc o' = enc_obj sc o2 /\ ounk o' = ounk o2 /\ ocls o' = ocls o2 /\ osow o' = true /\
+           (forall g, which_one_of o' g = which_one_of o2 g) /\
+           (deep nan_free (PMsg o) = true -> obj_eq sc o' o2 = true /\ obj_eq sc o2 o' = true) /\
+           (sow_ok sc o = true ->
+            C14Ops.presence_below sc o' [] = C14Ops.presence_below sc o2 [] /\
+            forall i, C14Pickle.child_flag sc o' i = C14Pickle.child_flag sc o2 i) /\
+           (deep (sow_ok sc) (PMsg o) = true -> deep (C14Pickle.flags_ok sc) (PMsg o) = true ->
+            forall p, C14Ops.presence_below sc o' p = C14Ops.presence_below sc o2 p)) /\
+      (forall o, C14Ops.shaped_top sc o = true ->
+         C14Thm.indistinguishable sc o (History.copy sc o) /\
+         osow (History.copy sc o) = osow o /\ ocur (History.copy sc o) = ocur o) /\
+      (forall o, C14Ops.shaped_obj sc o = true ->
+         C14Thm.indistinguishable sc o (History.deepcopy sc o) /\
+         osow (History.deepcopy sc o) = osow o /\ ocur (History.deepcopy sc o) = ocur o).
+Proof. exact generated_pickle. Qed.
+Print Assumptions C03_generated_pickle.
+
+(* C05 for generated classes, against the reference-side schema in which every proto field name IS the attribute name
+   (jschema_of): js_matches stays a hypothesis (see the head of this section); keys_ok CAMEL is gen_keys_ok CAMEL
+   (C05_emit_jschema_of, C05_accept_jschema_of) *)
+Theorem C03_generated_json_canonical :
+  forall (field_name class_name : str -> str) (enum_member_name : str -> str -> str) (D : descriptor),
+    protoc_wf D = true -> names_ok field_name class_name enum_member_name D = true -> bridge_ok D = true ->
+    exists t, reflect (compile field_name class_name enum_member_name D) = Ok t /\
+      let sc := schema_of_table t in
+      C05MsgDef.js_matches 0 sc (C05MsgDef.jschema_of sc) = true ->
+      (forall o, C05MsgDef.emit_good sc o = true -> (ocls o < List.length (classes sc))%nat ->
+         C05Model.model_emit_accepts sc (C05MsgDef.jschema_of sc) (ocls o) o = Some (C05MsgDef.abs_obj sc o)) /\
+      (gen_keys_ok Json.CAMEL field_name D = true ->
+       forall c a, C05AccDef.wf_aval sc (C05MsgDef.jschema_of sc) 0 (C05Model.S.JMsg c) a = true ->
+         C05Model.model_reads_canonical sc (C05MsgDef.jschema_of sc) c c a = Some a).
+Proof. exact generated_json_canonical. Qed.
+Print Assumptions C03_generated_json_canonical.
+
+(* C06 for generated classes: a fresh instance encodes to nothing and reads as the proto3 defaults; after decoding, oneof
+   selection, None-ness / is_set of optional-like fields and serialized_on_wire of plain sub-messages are exactly "a record
+   of that field arrived" (C06_fresh, C06_decode_presence_oneof / _optional / _submessage) *)
+Theorem C03_generated_presence :
+  forall (field_name class_name : str -> str) (enum_member_name : str -> str -> str) (D : descriptor),
+    protoc_wf D = true -> names_ok field_name class_name enum_member_name D = true -> bridge_ok D = true ->
+    exists t, reflect (compile field_name class_name enum_member_name D) = Ok t /\
+      let sc := schema_of_table t in
+      (forall c, enc_obj sc (new sc c) = Ok [] /\
+         forall i f, nth_error (cfields (get_class sc c)) i = Some f -> read sc (new sc c) i = C06Wire.proto3_default sc f) /\
+      (forall c bs rs m, C06Wire.is_records rs bs -> parse sc c bs = Ok m ->
+         (forall g, which_one_of m g = C06Wire.last_member (get_class sc c) g rs) /\
+         (forall j f, nth_error (cfields (get_class sc c)) j = Some f -> C06Wire.optional_like f ->
+            C06Obs.value_not_none sc m j = C06Wire.has_record f rs /\
+            (fopt f = true -> C06Obs.is_set sc m j = C06Wire.has_record f rs)) /\
+         (forall j f, nth_error (cfields (get_class sc c)) j = Some f -> C06Wire.plain_msg f ->
+            C06Obs.child_on_wire m j = C06Wire.has_record f rs)).
+Proof. exact generated_presence. Qed.
+Print Assumptions C03_generated_presence.
+
+(* C07 for generated classes: after EVERY history of operations on a generated message whose assignments to oneof members
+   are values (op_ok) - parse, pickle, copies, from_dict, observers, nested assignments unrestricted - bytes() shows exactly the
+   selected member of each oneof group and no other member (C07_observable_reachable) *)
+Theorem C03_generated_oneof :
+  forall (field_name class_name : str -> str) (enum_member_name : str -> str -> str) (D : descriptor),
+    protoc_wf D = true -> names_ok field_name class_name enum_member_name D = true -> bridge_ok D = true ->
+    exists t, reflect (compile field_name class_name enum_member_name D) = Ok t /\
+      let sc := schema_of_table t in
+      forall c ops o bs,
+        Forall (C07ValP.op_ok sc c) ops -> C07Ops.run7 sc (new sc c) ops = Ok o -> enc_obj sc o = Ok bs ->
+        exists body rs,
+          bs = body ++ ounk o /\ C07Wire.records body = Some rs /\
+          forall g, (g < cngroups (get_class sc (ocls o)))%nat ->
+            match which_one_of o g with
+            | Some i =>
+                exists f, nth_error (C07InvP.cfs sc o) i = Some f /\ In (fnum f) (C07Wire.numbers rs) /\
+                          forall j f', j <> i -> nth_error (C07InvP.cfs sc o) j = Some f' -> fgroup f' = Some g ->
+                                       ~ In (fnum f') (C07Wire.numbers rs)
+            | None =>
+                forall j f', nth_error (C07InvP.cfs sc o) j = Some f' -> fgroup f' = Some g ->
+                             ~ In (fnum f') (C07Wire.numbers rs)
+            end.
+Proof. exact generated_oneof. Qed.
+Print Assumptions C03_generated_oneof.
+
+(* ---- non-vacuity of the chain: D_ok, its table T_ok and schema S_ok, the value ok_outer of the generated class Outer ---- *)
+(* the three descriptor-level premises, the table and the schema every corollary speaks about *)
+Example C03_ex_chain_premises :
+  protoc_wf D_ok = true /\ names_ok w_field_name w_class_name w_member_name D_ok = true /\ bridge_ok D_ok = true
+  /\ reflect (compile w_field_name w_class_name w_member_name D_ok) = Ok T_ok /\ S_ok = schema_of_table T_ok
+  /\ n_msgs T_ok = 2%nat /\ n_entries T_ok = 2%nat.
+Proof. exact chain_premises. Qed.
+(* C03_generated_interop: ok_outer meets the writer's hypotheses (58 bytes, 8 records, denoting the message itself, inside
+   supported), so its bytes meet the reader's *)
+Example C03_ex_chain_interop :
+  c01_value_ok S_ok ok_outer = true /\ C02Abs.enc_faithful S_ok ok_outer = true /\ enc_obj S_ok ok_outer = Ok ok_bytes
+  /\ (Zlength ok_bytes <? 2 ^ 35) = true /\ List.length ok_bytes = 58%nat
+  /\ match Wire.parse_wire ok_bytes with
+     | Some rs => List.length rs = 8%nat
+                  /\ Wire.sem (S (List.length ok_bytes)) S_ok 11 rs = Some (C02Abs.abs_obj S_ok ok_outer)
+                  /\ C02Abs.supported (S (List.length ok_bytes)) S_ok 11 rs = true
+     | None => False
+     end
+  /\ match parse S_ok 11 ok_bytes with Ok m' => C02Abs.abs_obj S_ok m' = C02Abs.abs_obj S_ok ok_outer | Err _ => False end.
+Proof. exact chain_interop. Qed.
+(* C03_generated_json: the residual premise holds of D_ok for both casings, ok_outer is good, the text round trip rebuilds it *)
+Example C03_ex_chain_json :
+  gen_keys_ok Json.CAMEL w_field_name D_ok = true /\ gen_keys_ok Json.SNAKE w_field_name D_ok = true
+  /\ C04Def.keys_ok Json.CAMEL S_ok = true /\ C04Def.keys_ok Json.SNAKE S_ok = true
+  /\ C04Def.good S_ok ok_outer = true
+  /\ match Json.to_dict Json.CAMEL false S_ok ok_outer with Json.JObj d => List.length d = 7%nat | _ => False end
+  /\ match Json.json_rt_inst Json.CAMEL false S_ok ok_outer (new S_ok 11) with
+     | Ok m' => obj_eq S_ok m' ok_outer = true /\ enc_obj S_ok m' = Ok ok_bytes
+     | Err _ => False
+     end.
+Proof. exact chain_json. Qed.
+(* C03_generated_welltyped_decode: Outer parses ok_bytes followed by an unknown group *)
+Example C03_ex_chain_welltyped :
+  match parse S_ok 11 (ok_bytes ++ [x9b; x06; x08; x01; x9c; x06]) with
+  | Ok m => C17Typed.well_typed S_ok m = true /\ C17Typed.decoded_range S_ok m = true /\ ocls m = 11%nat
+            /\ ounk m = [x9b; x06; x08; x01; x9c; x06]
+  | Err _ => False
+  end.
+Proof. exact chain_welltyped. Qed.
+(* C03_generated_evolution: Outer loses a (the unselected member of the oneof), od, bv; Inner loses back; the bundled and the
+   Entry classes keep their fields; the older reader keeps 13 unknown bytes, re-writes 58 different bytes, the generated
+   class reads them back to the decoded form.  A mask on an Entry class is not admissible *)
+Example C03_ex_chain_evolution :
+  (List.length ok_um <= n_msgs T_ok)%nat /\ gen_masks_ok T_ok (user_masks ok_um) = true
+  /\ C08EvoDef.masks_ok S_ok (user_masks ok_um) = true
+  /\ map (fun c => List.length (cfields (get_class (C08Step.drop_fields (user_masks ok_um) S_ok) c))) [0; 10; 11; 12; 13; 14]%nat
+     = [2; 1; 5; 1; 2; 2]%nat
+  /\ match parse (C08Step.drop_fields (user_masks ok_um) S_ok) 11 ok_bytes with
+     | Ok mo => List.length (ounk mo) = 13%nat /\
+                match enc_obj (C08Step.drop_fields (user_masks ok_um) S_ok) mo with
+                | Ok b2 => List.length b2 = 58%nat /\ b2 <> ok_bytes /\ parse S_ok 11 b2 = Ok (norm_obj S_ok ok_outer)
+                | Err _ => False
+                end
+     | Err _ => False
+     end.
+Proof. exact chain_evolution. Qed.
+Example C03_ex_chain_evolution_entry_mask : gen_masks_ok T_ok (user_masks [[]; []; [true; false]]) = false.
+Proof. exact chain_evolution_entry_mask. Qed.
+(* C03_generated_streams: three messages of the two generated classes *)
+Example C03_ex_chain_streams :
+  Forall (fun m => c01_value_ok S_ok m = true /\ deep nan_free (PMsg m) = true) ok_ms /\
+  Forall (fun m => C10Rt.msg_small S_ok m = true) ok_ms /\
+  map ocls ok_ms = [11; 12; 11]%nat
+  /\ match C10Stream.dump_stream S_ok ok_ms with
+     | Ok stream => List.length stream = 119%nat
+                    /\ C10Stream.loads S_ok (map ocls ok_ms) (stream ++ [xff]) = (map (norm_obj S_ok) ok_ms, Ok [xff])
+                    /\ C10Rt.whole_frames S_ok ok_ms 70 = 2%nat
+     | Err _ => False
+     end.
+Proof. exact (conj (proj1 chain_streams_hyps) (conj (proj2 chain_streams_hyps) (proj2 chain_streams))). Qed.
+(* C03_generated_pickle *)
+Example C03_ex_chain_pickle :
+  c01_value_ok S_ok (C08Step.clear_unk ok_outer) = true /\ C14Pickle.unk_records_ok S_ok ok_outer = true
+  /\ C14Pickle.enc_small S_ok ok_outer = true /\ C14Ops.mat_obj S_ok ok_outer ok_outer = true
+  /\ C14Pickle.pickle_pre S_ok ok_outer = true
+  /\ sow_ok S_ok ok_outer = true /\ deep nan_free (PMsg ok_outer) = true
+  /\ C14Ops.shaped_top S_ok ok_outer = true /\ C14Ops.shaped_obj S_ok ok_outer = true
+  /\ History.pickle_rt S_ok ok_outer = Ok (norm_obj S_ok ok_outer).
+Proof. exact chain_pickle. Qed.
+(* C03_generated_json_canonical: js_matches holds of S_ok *)
+Example C03_ex_chain_json_canonical :
+  C05MsgDef.js_matches 0 S_ok (C05MsgDef.jschema_of S_ok) = true /\ C05MsgDef.emit_good S_ok ok_outer = true
+  /\ (ocls ok_outer < List.length (classes S_ok))%nat
+  /\ C05Model.model_emit_accepts S_ok (C05MsgDef.jschema_of S_ok) 11 ok_outer = Some (C05MsgDef.abs_obj S_ok ok_outer)
+  /\ C05AccDef.wf_aval S_ok (C05MsgDef.jschema_of S_ok) 0 (C05Model.S.JMsg 11) (C05MsgDef.abs_obj S_ok ok_outer) = true.
+Proof. exact chain_json_canonical. Qed.
+(* C03_generated_presence *)
+Example C03_ex_chain_presence :
+  exists rs m, C06Wire.is_records rs ok_bytes /\ parse S_ok 11 ok_bytes = Ok m
+    /\ C06Wire.last_member (get_class S_ok 11) 0 rs = Some 2%nat /\ which_one_of m 0 = Some 2%nat
+    /\ map (fun f => C06Wire.has_record f rs) (cfields (get_class S_ok 11)) = [true; false; true; true; true; true; true; true]
+    /\ C06Obs.value_not_none S_ok m 3 = true /\ C06Obs.is_set S_ok m 3 = true.
+Proof. exact chain_presence. Qed.
+(* C03_generated_oneof: a = 5, then c = NEG (the other member of oneof pick), bytes, pickle, copy on the generated class Outer *)
+Example C03_ex_chain_oneof :
+  Forall (C07ValP.op_ok S_ok 11) ok_ops /\
+  match C07Ops.run7 S_ok (new S_ok 11) ok_ops with
+  | Ok o => which_one_of o 0 = Some 2%nat /\ read S_ok o 1 = Err EAttribute
+            /\ enc_obj S_ok o = Ok [x18; xff; xff; xff; xff; xff; xff; xff; xff; xff; x01]
+            /\ C07Wire.records [x18; xff; xff; xff; xff; xff; xff; xff; xff; xff; x01] = Some [(3, 0)]
+  | Err _ => False
+  end.
+Proof. exact chain_oneof. Qed.
